@@ -494,7 +494,12 @@ impl Scanner {
                     self.current = slice_start;
                     return Err(());
                 }
+                let is_newline = chars == "\n";
                 read_chars.push_str(chars);
+                if is_newline {
+                    // Not a hex digit, so the escape is reported as invalid, but the line still ends.
+                    self.line += 1;
+                }
             }
             let result = u8::from_str_radix(read_chars.as_str(), 16);
             match result {
